@@ -651,6 +651,14 @@ int cif_packet_create_norm(
         ) INTERNAL;
 
 /*
+ * Determines whether the specified Unicode string contains a character that is not allowed to appear in CIF 2.0
+ * (or an unpaired surrogate).  Returns nonzero if so, zero otherwise.
+ */
+int cif_text_has_disallowed_chars(
+        const UChar *str
+        ) INTERNAL;
+
+/*
  * Validates a CIF block code or frame code, or similar "case insensitive" name,
  * and creates a normalized version suitable for use as a database or hash key,
  * or for equivalency comparisons.
